@@ -126,6 +126,13 @@ func c18cases(tier string) []c18case {
 		add(c18case{Execs: []string{"wv", "rv"}, Mode: m.m, K: m.k, Sched: "free"})
 		add(c18case{Execs: []string{"rv", "wv", "xor"}, Mode: m.m, K: m.k, Sched: "free"})
 	}
+	// A''. a member with an embedded sub-process that ends while the member goes on: what ends inside a member is not the
+	//      member's end (the set waits for the member's own last token)
+	for _, m := range modes {
+		add(c18case{Execs: []string{"sub"}, Mode: m.m, K: m.k, Sched: "free"})
+		add(c18case{Execs: []string{"subt", "task"}, Mode: m.m, K: m.k, Sched: "free"})
+		add(c18case{Execs: []string{"triv", "sub"}, Waits: []string{"wtask"}, Mode: m.m, K: m.k, Sched: "free"})
+	}
 	// B. the fast-process-missed witness, enforced: the watchers are held before they subscribe until the fast
 	//    processes (latefast) / all processes (lateall) have finished
 	for _, s := range [][]string{{"triv"}, {"triv", "triv"}, {"triv", "task"}, {"task"}, {"task", "xor"}, {"triv", "par", "task"}} {
@@ -347,6 +354,17 @@ func c18graph(id, shape string, executable bool) *eng.Graph {
 		chain(f, task("A"), h)
 		chain(f, task("B"), h)
 		chain(h, task("C"), en)
+	case "sub", "subt": // an EMBEDDED SUB-PROCESS (empty / one task inside) that the token leaves while the member goes on (task A)
+		u := g.Add("subProcess", "U", "")
+		us := g.Add("startEvent", "us", u.ID)
+		ue := g.Add("endEvent", "ue", u.ID)
+		if shape == "subt" {
+			t := g.Add("task", "T", u.ID)
+			chain(us, t, ue)
+		} else {
+			chain(us, ue)
+		}
+		chain(st, u, task("A"), en)
 	case "wthr":
 		chain(st, task("A"), throw(), en)
 	case "wiv": // a waiting process that READS AN INITIAL VARIABLE of the set (iv = 1, given with the set's options)
